@@ -198,7 +198,7 @@ func TestPropKernels(t *testing.T) {
 func TestRegress(t *testing.T) {
 	files, _ := os.ReadDir("regress")
 	for _, f := range files {
-		if strings.HasPrefix(f.Name(), "histories-") {
+		if strings.HasPrefix(f.Name(), "histories-") || strings.HasPrefix(f.Name(), "shipped-") {
 			continue
 		}
 		var c Case
@@ -216,6 +216,10 @@ func TestRegress(t *testing.T) {
 func TestReplay(t *testing.T) {
 	if stats.ReplayStage() == "histories" {
 		replayHistories(t)
+		return
+	}
+	if stats.ReplayStage() == "shipped" {
+		replayShipped(t)
 		return
 	}
 	var c Case
